@@ -74,8 +74,9 @@ ASSUMPTIONS = [
     'moved parameters: nest parameters, scale and degrees of membership as free Betas whose initial value differs from the '
     'value supplied with betas= at evaluation; initial memberships all 0 / all 1 / 1 - alpha, initial nest parameter and '
     'scale 1 (or value + 0.5); whole memberships as a full alpha matrix with explicit zeros; every nested structure with a '
-    'nest x the same parameter assignments x the three initial-value modes; cross-nested structures: one assignment '
-    '(thorough: two) x initial memberships 0 and one rotating other mode (all three for J = 2 with 2 nests, and thorough)',
+    'nest x the same parameter assignments x the three initial-value modes; cross-nested structures: one assignment x '
+    'initial memberships 0 and one other mode rotating with the structure (quick: all three modes for J = 2 with 2 nests; '
+    'thorough: two assignments x all three modes except for the largest families 3 nests x J = 3 and 2 nests x J = 4)',
     'old names of the generating function / of the terms and the scaled terms with mu = 1 (GEN_ENTRIES, 5 combinations) '
     'in the derivative clause: every combination for J <= 3, rotating with the structure for J = 4',
 ]
@@ -790,11 +791,13 @@ def run_task(task):
                 rec.count('cnl_structure_without_cross_membership_covered_by_nested_part')
                 continue
             mus_list = B._cnl_mus(alph, task['M'], 'reduced')
-            # one parameter assignment (distinct values) x every initial-value mode; thorough: a second assignment
-            for mus in ([mus_list[-1]] if tier == 'quick' else [mus_list[1], mus_list[-1]]):
+            # small families (thorough; quick: J = 2 with 2 nests): two parameter assignments (quick: one) x every
+            # initial-value mode; large families: one assignment x 'zero' and one other mode rotating with the structure
+            large = (J, task['M']) in ((3, 3), (4, 2)) or (tier == 'quick' and (J, task['M']) != (2, 2))
+            for mus in ([mus_list[-1]] if (tier == 'quick' or large) else [mus_list[1], mus_list[-1]]):
                 for k, mode in enumerate(INIT_MODES):
-                    if tier == 'quick' and (J, task['M']) != (2, 2) and k != si % 3 and mode != 'zero':
-                        continue    # largest families: 'zero' and one rotating other mode
+                    if large and k != si % 3 and mode != 'zero':
+                        continue
                     check_cnl_structure(alph, alts, alone, nests, list(mus), table, rec, tier, si, moved=mode)
         rec.sample(dict(part='moved_cnl', alts=alts, M=task['M'], first=structs[task['structs'][0]]))
     elif task['part'] == 'gen_entries':
